@@ -12,8 +12,12 @@ def regen(ctx):
         "runtime/valuenotifier/listener.go:Notifier.Notify",
         "runtime/valuenotifier/listener.go:Notifier.Listener",
         "runtime/promise/event.go:Event1.OnTrigger",
+        "runtime/promise/event.go:Event.OnTrigger",
+        "runtime/promise/utils.go:uniqueID.Next",
         "runtime/promise/event.go:Event.Trigger",
         "runtime/event/options.go:triggerSettings.currentTriggerExceedsMaxTriggerCount",
+        "runtime/event/options.go:triggerSettings.MaxTriggerCountReached",
+        "runtime/event/options.go:type=triggerSettings",
         "runtime/event/event.go:event.linkTo",
         "runtime/event/event.go:event.Hook",
         "runtime/event/hook.go:Hook.Unhook",
@@ -23,7 +27,8 @@ def regen(ctx):
         "ds/orderedmap/orderedmap.go:OrderedMap.ForEach",
         "ds/orderedmap/orderedmap.go:OrderedMap.Delete",
         "ds/orderedmap/orderedmap.go:OrderedMap.Set",
-    ], extra_methods=["Delete", "Set", "Get", "Has", "ForEach", "Hook", "Unhook", "Submit", "Next"])
+    ], extra_methods=["Delete", "Set", "Get", "Has", "ForEach", "Hook", "Unhook", "Submit", "Next", "MaxTriggerCount",
+                      "TriggerCount", "Load"])
 
 
 SPEC = {
@@ -42,7 +47,8 @@ SPEC = {
         "C15_skeleton_Notifier_Notify", "C15_skeleton_Notifier_Listener", "C15_skeleton_Event1_OnTrigger",
         "C15_skeleton_Event_Trigger", "C15_skeleton_triggerSettings_currentTriggerExceedsMaxTriggerCount",
         "C15_skeleton_event_linkTo", "C15_skeleton_event_Hook", "C15_skeleton_Hook_Unhook", "C15_skeleton_Event1_Trigger",
-        "C15_skeleton_Hook_WorkerPool", "C15_skeleton_triggerSettings_hasWorkerPool",
+        "C15_skeleton_Event_OnTrigger", "C15_skeleton_uniqueID_Next", "C15_skeleton_triggerSettings_MaxTriggerCountReached",
+        "C15_skeleton_type_triggerSettings", "C15_skeleton_Hook_WorkerPool", "C15_skeleton_triggerSettings_hasWorkerPool",
         "C15_skeleton_OrderedMap_ForEach", "C15_skeleton_OrderedMap_Delete", "C15_skeleton_OrderedMap_Set",
     ],
     "trusted_base": [
